@@ -45,9 +45,10 @@ VARIABLES l,        \* next trace line
           contig, ahead,   \* per receiver: delivered seqs = 0..contig-1 plus `ahead`
           pat,             \* per endpoint: nonce pattern and low-entropy setting in effect
           cle,             \* per session: the client has emitted low-entropy data
+          cseq,            \* per sender (UDP): the <<seq, type>> of every close request / response it has emitted
           last             \* the event just consumed, plus the pre-state facts its property needs
 
-vars == <<l, cfg, wBegun, wDone, closing, rTotal, nextSeq, txOff, first, contig, ahead, pat, cle, last>>
+vars == <<l, cfg, wBegun, wDone, closing, rTotal, nextSeq, txOff, first, contig, ahead, pat, cle, cseq, last>>
 
 Zero == [k \in Keys |-> 0]
 NoCfg == [transport |-> "", mtu |-> 0, cmid |-> 255, cend |-> 255, smid |-> 255, send |-> 255,
@@ -61,13 +62,13 @@ Reset == /\ cfg' = NoCfg
          /\ nextSeq' = Zero /\ txOff' = Zero
          /\ first' = [k \in Keys |-> <<>>]
          /\ contig' = Zero /\ ahead' = [k \in Keys |-> {}]
-         /\ pat' = [e \in Eps |-> NoPat] /\ cle' = [s \in 0..(MaxS - 1) |-> FALSE]
+         /\ pat' = [e \in Eps |-> NoPat] /\ cle' = [s \in 0..(MaxS - 1) |-> FALSE] /\ cseq' = [k \in Keys |-> {}]
 
 Init == /\ l = 1
         /\ cfg = NoCfg /\ wBegun = Zero /\ wDone = Zero /\ rTotal = Zero
         /\ closing = [k \in Keys |-> FALSE] /\ nextSeq = Zero /\ txOff = Zero
         /\ first = [k \in Keys |-> <<>>] /\ contig = Zero /\ ahead = [k \in Keys |-> {}]
-        /\ pat = [e \in Eps |-> NoPat] /\ cle = [s \in 0..(MaxS - 1) |-> FALSE]
+        /\ pat = [e \in Eps |-> NoPat] /\ cle = [s \in 0..(MaxS - 1) |-> FALSE] /\ cseq = [k \in Keys |-> {}]
         /\ last = Idle
 
 E == Trace[l]
@@ -84,25 +85,25 @@ Cfg == /\ E.ev = "Cfg"
        /\ cfg' = [transport |-> E.ep, mtu |-> E.wlen, cmid |-> E.pre, cend |-> E.suf, smid |-> E.a,
                   send |-> E.b, clean |-> E.ok, tampers |-> E.n, ns |-> E.s, complete |-> (E.fate = "complete")]
        /\ last' = [ev |-> "Cfg"]
-       /\ UNCHANGED <<wBegun, wDone, closing, rTotal, nextSeq, txOff, first, contig, ahead, pat, cle>>
+       /\ UNCHANGED <<wBegun, wDone, closing, rTotal, nextSeq, txOff, first, contig, ahead, pat, cle, cseq>>
 
 Pat == /\ E.ev = "Pat" /\ E.ep \in Eps
        /\ pat' = [pat EXCEPT ![E.ep] = [type |-> E.pt, min |-> E.n, max |-> E.a, apply |-> E.b, mode |-> E.win,
                                           rot |-> E.frag, nfixed |-> E.plen, tcpfrag |-> E.ok]]
        /\ last' = [ev |-> "Pat"]
-       /\ UNCHANGED <<cfg, wBegun, wDone, closing, rTotal, nextSeq, txOff, first, contig, ahead, cle>>
+       /\ UNCHANGED <<cfg, wBegun, wDone, closing, rTotal, nextSeq, txOff, first, contig, ahead, cle, cseq>>
 
 WriteBegin == /\ E.ev = "Wb" /\ Known(E)
               /\ wBegun' = [wBegun EXCEPT ![K(E)] = @ + E.n]
               /\ last' = [ev |-> "Wb"]
-              /\ UNCHANGED <<cfg, wDone, closing, rTotal, nextSeq, txOff, first, contig, ahead, pat, cle>>
+              /\ UNCHANGED <<cfg, wDone, closing, rTotal, nextSeq, txOff, first, contig, ahead, pat, cle, cseq>>
 
 WriteRet == /\ E.ev = "W" /\ Known(E)
             /\ wDone' = [wDone EXCEPT ![K(E)] = @ + E.n]
             \* bytes offered but not accepted are no longer "in progress"
             /\ wBegun' = [wBegun EXCEPT ![K(E)] = @ - (E.a - E.n)]
             /\ last' = [ev |-> "W", k |-> K(E), n |-> E.n, err |-> E.err]
-            /\ UNCHANGED <<cfg, closing, rTotal, nextSeq, txOff, first, contig, ahead, pat, cle>>
+            /\ UNCHANGED <<cfg, closing, rTotal, nextSeq, txOff, first, contig, ahead, pat, cle, cseq>>
 
 ReadRet == /\ E.ev = "R" /\ Known(E)
            /\ rTotal' = [rTotal EXCEPT ![K(E)] = @ + E.n]
@@ -111,16 +112,16 @@ ReadRet == /\ E.ev = "R" /\ Known(E)
                        selfClosing |-> closing[K(E)], peerClosing |-> closing[PeerK(K(E))],
                        peerDone |-> wDone[PeerK(K(E))], peerBegun |-> wBegun[PeerK(K(E))],
                        total |-> rTotal[K(E)] + E.n]
-           /\ UNCHANGED <<cfg, wBegun, wDone, closing, nextSeq, txOff, first, contig, ahead, pat, cle>>
+           /\ UNCHANGED <<cfg, wBegun, wDone, closing, nextSeq, txOff, first, contig, ahead, pat, cle, cseq>>
 
 CloseBegin == /\ E.ev = "Cb" /\ Known(E)
               /\ closing' = [closing EXCEPT ![K(E)] = TRUE]
               /\ last' = [ev |-> "Cb"]
-              /\ UNCHANGED <<cfg, wBegun, wDone, rTotal, nextSeq, txOff, first, contig, ahead, pat, cle>>
+              /\ UNCHANGED <<cfg, wBegun, wDone, rTotal, nextSeq, txOff, first, contig, ahead, pat, cle, cseq>>
 
 CloseRet == /\ E.ev = "Cr"
             /\ last' = [ev |-> "Cr", ms |-> E.n]
-            /\ UNCHANGED <<cfg, wBegun, wDone, closing, rTotal, nextSeq, txOff, first, contig, ahead, pat, cle>>
+            /\ UNCHANGED <<cfg, wBegun, wDone, closing, rTotal, nextSeq, txOff, first, contig, ahead, pat, cle, cseq>>
 
 (* A segment on the wire.  Unknown session (s = -1): only the size and
    decodability obligations apply. *)
@@ -131,6 +132,7 @@ Tx == /\ E.ev = "Tx"
              isNew == known /\ isSeq /\ E.seq >= nextSeq[k]
              isRetx == known /\ isSeq /\ E.seq < nextSeq[k]
              sig == <<E.pt, E.frag, E.dig, E.plen>>
+             isClose == known /\ cfg.transport = "udp" /\ E.pt \in {4, 5} /\ E.seq >= 0 /\ E.seq < 2000000000
          IN
          /\ nextSeq' = IF isNew THEN [nextSeq EXCEPT ![k] = E.seq + 1] ELSE nextSeq
          /\ txOff' = IF isNew THEN [txOff EXCEPT ![k] = @ + E.plen] ELSE txOff
@@ -138,7 +140,8 @@ Tx == /\ E.ev = "Tx"
          /\ last' = [ev |-> "Tx", ep |-> E.ep, known |-> known, pt |-> E.pt, decodable |-> (E.err = ""),
                      wlen |-> E.wlen, plen |-> E.plen, pre |-> E.pre, suf |-> E.suf, fieldLen |-> E.b,
                      isNew |-> isNew, isRetx |-> isRetx,
-                     dense |-> (~isNew \/ E.seq = nextSeq[k]),
+                     dense |-> (~isNew \/ E.seq = nextSeq[k] \/ cseq[k] # {}),   \* close segments take sequence numbers this monitor does not count
+                     closeUnique |-> (~isClose \/ \A c \in cseq[k] : c[1] = E.seq => c[2] = E.pt),
                      offOK |-> (~isNew \/ (E.off = txOff[k] /\ E.ok)),
                      same |-> (~isRetx \/ (E.seq + 1 <= Len(first[k]) /\ first[k][E.seq + 1] = sig)),
                      hasAck |-> (known /\ E.pt \in (DataTypes \cup AckTypes)),
@@ -146,6 +149,8 @@ Tx == /\ E.ev = "Tx"
                      npp |-> E.npp, nps |-> E.nps, nfx |-> E.nfx,
                      clientUsedLE |-> (IF Known(E) THEN cle[E.s] ELSE FALSE)]
       /\ cle' = IF Known(E) /\ E.ep = "C" /\ E.pt = 10 THEN [cle EXCEPT ![E.s] = TRUE] ELSE cle
+      /\ cseq' = IF Known(E) /\ E.err = "" /\ cfg.transport = "udp" /\ E.pt \in {4, 5} /\ E.seq >= 0 /\ E.seq < 2000000000
+                 THEN [cseq EXCEPT ![K(E)] = @ \cup {<<E.seq, E.pt>>}] ELSE cseq
       /\ UNCHANGED <<cfg, wBegun, wDone, closing, rTotal, contig, ahead, pat>>
 
 Rx == /\ E.ev = "Rx"
@@ -153,26 +158,26 @@ Rx == /\ E.ev = "Rx"
          THEN LET r == Advance(contig[K(E)], ahead[K(E)] \cup {E.seq})
               IN /\ contig' = [contig EXCEPT ![K(E)] = r[1]]
                  /\ ahead' = [ahead EXCEPT ![K(E)] = r[2]]
-         ELSE UNCHANGED <<contig, ahead, pat, cle>>
+         ELSE UNCHANGED <<contig, ahead, pat, cle, cseq>>
       /\ last' = [ev |-> "Rx"]
-      /\ UNCHANGED <<cfg, wBegun, wDone, closing, rTotal, nextSeq, txOff, first, pat, cle>>
+      /\ UNCHANGED <<cfg, wBegun, wDone, closing, rTotal, nextSeq, txOff, first, pat, cle, cseq>>
 
 End == /\ E.ev = "End"
        /\ last' = [ev |-> "End", ok |-> E.ok, ms |-> E.n,
                    allRead |-> \A k \in Keys : k[2] < cfg.ns => rTotal[k] = wDone[PeerK(k)]]
-       /\ UNCHANGED <<cfg, wBegun, wDone, closing, rTotal, nextSeq, txOff, first, contig, ahead, pat, cle>>
+       /\ UNCHANGED <<cfg, wBegun, wDone, closing, rTotal, nextSeq, txOff, first, contig, ahead, pat, cle, cseq>>
 
 Mark == /\ E.ev = "Mark"
         /\ last' = [ev |-> "Mark", ok |-> E.ok, bound |-> E.n]
-        /\ UNCHANGED <<cfg, wBegun, wDone, closing, rTotal, nextSeq, txOff, first, contig, ahead, pat, cle>>
+        /\ UNCHANGED <<cfg, wBegun, wDone, closing, rTotal, nextSeq, txOff, first, contig, ahead, pat, cle, cseq>>
 
 Other == /\ E.ev \notin {"Begin", "Cfg", "Wb", "W", "R", "Cb", "Cr", "Tx", "Rx", "End", "Mark", "Pat"}
          /\ last' = [ev |-> E.ev]
-         /\ UNCHANGED <<cfg, wBegun, wDone, closing, rTotal, nextSeq, txOff, first, contig, ahead, pat, cle>>
+         /\ UNCHANGED <<cfg, wBegun, wDone, closing, rTotal, nextSeq, txOff, first, contig, ahead, pat, cle, cseq>>
 \* events about unknown sessions (s = -1) that are not Tx
 Unattributed == /\ E.ev \in {"Wb", "W", "R", "Cb"} /\ ~Known(E)
                 /\ last' = [ev |-> "unattributed", what |-> E.ev, n |-> E.n, err |-> E.err]
-                /\ UNCHANGED <<cfg, wBegun, wDone, closing, rTotal, nextSeq, txOff, first, contig, ahead, pat, cle>>
+                /\ UNCHANGED <<cfg, wBegun, wDone, closing, rTotal, nextSeq, txOff, first, contig, ahead, pat, cle, cseq>>
 
 Next == /\ l <= Len(Trace)
         /\ l' = l + 1
@@ -204,6 +209,8 @@ Decodable == last.ev = "Tx" => last.decodable
 AckSound == (last.ev = "Tx" /\ last.hasAck /\ cfg.transport = "udp") => last.una <= last.contig
 RetxSame == last.ev = "Tx" => last.same
 SeqDense == last.ev = "Tx" => last.dense
+\* C13: a sequence number is never used for two different close segments (request vs response)
+CloseSeqUnique == last.ev = "Tx" => last.closeUnique
 \* C01/C02 on the wire: new data continues the stream exactly where the previous segment ended
 TxContiguous == last.ev = "Tx" => last.offOK
 
